@@ -79,8 +79,36 @@ class Totality:
         if k not in self.ai_memo:
             view = self.prog.view(key, cfg)
             self.ai_memo[k] = None   # recursion guard
-            self.ai_memo[k] = absint.Analysis(view, ret_len=self._ret_len)
+            self.ai_memo[k] = absint.Analysis(view, ret_len=self._ret_len, ret_discr=self._ret_discr)
         return self.ai_memo[k]
+
+    def _ret_discr(self, callee, term, caller_ai, st):
+        """Discriminant of the enum a local function returns when all its scalar arguments are
+        constants at this call (e.g. `Self::try_from(2_u64)` is always Err for BITS < 2)."""
+        ccfg = self.callee_cfg(caller_ai.v, term["fn"], callee, caller_ai.v.cfg)
+        if ccfg == "any":
+            return None
+        cb = self.prog.bodies[callee]
+        if cb["kind"] not in ("Fn", "AssocFn"):
+            return None
+        argiv = {}
+        for i, a in enumerate(term["args"]):
+            iv, _ = caller_ai.eval_operand(st, a)
+            if iv is None or iv[0] != iv[1]:
+                return None
+            argiv[i + 1] = iv
+        if not argiv:
+            return None
+        eff = ccfg if "BITS" in self.prog.const_params(cb) else None
+        mk = ("discr", callee, eff, tuple(sorted(argiv.items())))
+        if mk not in self.ai_memo:
+            self.ai_memo[mk] = None
+            try:
+                a = absint.Analysis(self.prog.view(callee, eff), arg_intervals=argiv)
+                self.ai_memo[mk] = a.return_discr()
+            except RuntimeError:
+                self.ai_memo[mk] = None
+        return self.ai_memo[mk]
 
     def _ret_len(self, callee, term, caller_ai):
         """Length of the slice a local function returns, inferred from its own body."""
@@ -237,11 +265,48 @@ class Totality:
                     return True
         return False
 
+    def dominating_conditions(self, view, site_block):
+        """[(structural description, truth)] of every branch edge that dominates site_block."""
+        out = []
+        for b in view.dom.get(site_block, ()):
+            t = view.blocks[b]["term"]
+            if t["t"] != "switch":
+                continue
+            d = t["discr"]
+            if not (d.get("o") in ("copy", "move") and not d["p"]):
+                continue
+            ch = view.chase(d)
+            neg = False
+            if ch[0] == "rv" and ch[1]["r"] == "un" and ch[1]["op"] == "Not":
+                ch = view.chase(ch[1]["a"])
+                neg = True
+            if ch[0] == "call":
+                descr = (ir.callee_name(ch[1]["fn"]) or "?").split("::")[-1]
+            elif ch[0] == "rv" and ch[1]["r"] == "bin":
+                descr = "%s(%s,%s)" % (ch[1]["op"], panics._named_local(view, ch[1]["a"]),
+                                       panics._named_local(view, ch[1]["b"]))
+            else:
+                continue
+            for s in view.succ.get(b, []):
+                vals = [v for v, bb in t["targets"] if bb == s]
+                truths = {bool(v) for v in vals}
+                if t["otherwise"] == s:
+                    truths |= ({True, False} - {bool(v) for v, _ in t["targets"]})
+                if len(truths) == 1 and view.edge_dominates(b, s, site_block):
+                    out.append((descr, truths.pop() != neg))
+        return out
+
     def _row_ok(self, view, block, row):
         """Machine-checked side conditions of a table row."""
+        conds = None
         for req in row.get("requires", []):
             if "test" in req:
                 if not self.dominated_by_test(view, block, req["test"], req["truth"]):
+                    return False
+            if "cond" in req:
+                if conds is None:
+                    conds = self.dominating_conditions(view, block)
+                if (req["cond"], req["truth"]) not in conds:
                     return False
         return True
 
